@@ -41,7 +41,7 @@ class Gen:
     def pick(self, name, default):
         return self.rng.choice(self.p.get(name, default))
 
-    def lock_cmd(self, keys, ids, conns):
+    def lock_cmd(self, keys, ids, conns, safe=False):
         r = self.rng
         self.req += 1
         flag = r.choices([0, 1, 2, 3, 8], [70, 6, 8 + 100 * self.p.get("p_update", 0), 3, 0 if self.p.get("sched") else 6])[0]
@@ -70,6 +70,14 @@ class Gen:
             eflag |= 0x40
         elif r.random() < 0.012 and expried > 0:
             eflag |= 0x40; expried = r.choice([1092, 1093, 2000, 65535])
+        if safe:
+            # histories run with free-list recycling of Lock objects on top of the real ack tables: leave out the two
+            # recorded root causes that free a registered / live lock (re-entrant re-lock carrying require-ack,
+            # never-persist mode of an ack-lock, own or inherited) -- with recycling their use-after-free is not a
+            # crash but a silent hit on whoever got the object, which the model (fresh allocation) cannot follow
+            eflag &= ~0x200
+            if tflag & 0x1000:
+                rcount = 0
         data = "-"
         if self.with_data and r.random() < 0.5:
             data = self.with_data(r)
@@ -98,6 +106,36 @@ class Gen:
         return "req %d U %d %d %d %d %d %d %d %d %d %d %s" % (r.choice(conns), self.req, flag, r.choice(ids), r.choice(keys),
                                                               tflag, 0, 0, 0, r.choice([0, 0, 1, 65535]), rcount, data)
 
+    def late_ack_prefix(self, keys, ids, conns, ackcfg):
+        """the interleaving "acknowledgement delayed and pre-empted": ack-lock B1 is granted and registered (index 0) but
+        not (fully) acknowledged; its wait times out / a negative acknowledgement arrives / it is failed; another
+        ack-lock B2 is requested (with recycling it gets B1's Lock object); only then B1's record is acknowledged."""
+        r = self.rng
+        conn, key, id1 = r.choice(conns), r.choice(keys), r.choice(ids)
+        t1 = r.choice([1, 2, 3])
+        lines = []
+        self.req += 1
+        lines.append("req %d L %d 0 %d %d 4096 %d 0 %d 0 0 -" % (conn, self.req, id1, key, t1, r.choice([5, 10, 20])))
+        for _ in range(r.randint(0, ackcfg - 1)):
+            lines.append("ack 0 1 %s" % r.choice(["aofed", "acked"]))
+        how = r.choice(["timeout", "timeout", "timeout", "nack"])
+        if how == "timeout":
+            lines += ["adv %d" % (t1 + r.choice([1, 1, 2, 5])), "sweept"]
+            if r.random() < 0.5:
+                lines.append("sweepe")
+        else:
+            lines.append("ack 0 0 %s" % r.choice(["aofed", "acked"]))
+        for _ in range(r.choice([1, 1, 2])):
+            self.req += 1
+            lines.append("req %d L %d 0 %d %d 4096 %d 0 %d 0 0 -" % (r.choice([conn, r.choice(conns)]), self.req, r.choice([id1, r.choice(ids)]),
+                                                                    r.choice([key, r.choice(keys)]), r.choice([5, 10]), r.choice([5, 10, 20])))
+        for _ in range(r.randint(1, ackcfg + 1)):
+            lines.append("ack 0 %d %s" % (r.choice([1, 1, 1, 0]), r.choice(["aofed", "acked"])))
+        self.stats["late_ack_template"] += 1
+        self.stats["lock"] += 2
+        self.stats["require_ack"] += 2
+        return lines
+
     def from_aof(self, line):
         f = line.split()
         f[4] = str(int(f[4]) | 4)
@@ -121,7 +159,9 @@ class Gen:
         lo, hi = self.p.get("length", (5, 60))
         n = r.randint(lo, hi)
         aoft = self.pick("aoftimes", [1, 1, 1, 0, 2])
-        recycle = 0 if self.p.get("p_ack", 0) > 0 else r.choice([0, 1, 1])
+        # free-list recycling of Lock objects: the ack tables keep raw *Lock pointers, so a registration that outlives
+        # its lock is only visible as "an acknowledgement reaches ANOTHER request" when the object is handed out again
+        recycle = r.choice([0, 1]) if self.p.get("p_ack", 0) > 0 else r.choice([0, 1, 1])
         lines = ["case %d %d %d %d" % (cid, T0 + r.choice([0, 0, 3, 7, 13, 15]), aoft, recycle)]
         ackcfg = 1
         flushed = set()
@@ -132,6 +172,12 @@ class Gen:
         p_time = self.p.get("p_time", 0.25)
         nacks = 0
         sched = self.p.get("sched", False)
+        safe = self.p.get("p_ack", 0) > 0 and recycle == 1
+        if safe and r.random() < 0.5:
+            pre = self.late_ack_prefix(keys, ids, conns, ackcfg)
+            lines += pre
+            nacks += sum(1 for l in pre if l.startswith("ack "))
+            n = max(3, n // 2)
         for _ in range(n):
             if sched and r.random() < 0.45:
                 lines.append("resume %d" % r.randint(0, 5))
@@ -167,7 +213,7 @@ class Gen:
                 lines.append("role %d" % b)
                 self.stats["role"] += 1
             else:
-                ln = self.lock_cmd(keys, ids, conns)
+                ln = self.lock_cmd(keys, ids, conns, safe=safe)
                 if follower and r.random() < 0.5:
                     ln = self.from_aof(ln); self.stats["from_aof"] += 1
                 lines.append(ln)
